@@ -91,6 +91,11 @@ CHECKS = {
          "Every string up to length 6 (quick) / 8 (thorough) over `12-+!:,.E'a SP` as numeric-list and as channel-list body, ~900 grammar derivations (signs, fractions, exponents, 1-3 dimensions, ranges, path names with embedded separators) and ~60k single-point corruptions. The iterators must yield exactly the entries the text denotes, stop with an error exactly at a listed fault, and every ChannelSpec must report its dimension, per-dimension values and all six tuple conversions as the numbers of the text. Short bodies are also observed through Parameters::next_data in a real message.",
          "Trusted: refmodel/lists.rs (~300 lines, self-checked on the repo's own csv expectations). Text that leaves the pinned grammar (white space, trailing comma, non-integer channel numbers, missing separator between channel entries) gives no verdict from that point; an entry directly adjacent to a fault may or may not have been yielded.",
          "DESIGN.md section 5 (C19)"),
+ "C18": ("exploration",
+         "exhaustive enumeration of suffix strings up to a length bound per quantity and storage type, all letter-case variants of accepted suffixes, against a rule-based multiplier x unit oracle",
+         "For each of the 14 supported quantities, with f32 and f64 storage: every suffix string up to length 3/4 over letters `.` `/` and up to length 4/6 over the SCPI unit vocabulary, every documented suffix, over-long and malformed suffixes; every accepted suffix in all 2^len case variants x 6 literals must scale by the SCPI factor (relative 2e-6 / 1e-12); every non-derivable suffix and every non-numeric element must be refused; bare numbers are taken in the base unit; Amplitude (PK/PP/RMS) and Db (DB*) forms are classified with the number unchanged.",
+         "Trusted: the rule oracle in c18.rs (multiplier table from IEEE 488.2 7.7.3 / SCPI-99, unit names and SI factors per quantity). Suffixes allowed by the rules but not implemented (e.g. GV) give no verdict; suffixes in the library's documented tables must be accepted.",
+         "DESIGN.md section 5 (C18)"),
 }
 
 NOT_YET = "check not built yet (planned: DESIGN.md section 5 describes the bounded exhaustive exploration that will decide it)"
